@@ -208,7 +208,8 @@ package objectz
 //@   requires query != nil
 //@   modifies *
 //@   callpre[the-query-goes-to-the-sorting-scan-as-given] Scan@1: arg0 == self && arg1 == query
-//@   lensures[always-through-the-sorting-scan] called(Scan, 1) && result0 == ret(Scan, 1, 0) && result1 == ret(Scan, 1, 1) && result2 == ret(Scan, 1, 2)
+//@   lensures[always-through-the-sorting-scan-the-call-always-happens] called(Scan, 1)
+//@   lensures[always-through-the-sorting-scan] result0 == ret(Scan, 1, 0) && result1 == ret(Scan, 1, 1) && result2 == ret(Scan, 1, 2)
 
 // the untyped view of a symbol boxes exactly the pointer its function returns (null stays null, a zero value stays a value)
 //@ func (*ObjectStringSymbol).Eval
@@ -237,4 +238,5 @@ package objectz
 //@   waive pre#QueryEntitiesC ast.Parse returns a query or an error (C10's concern; not restated here)
 //@   modifies *
 //@   callpre[the-parsed-query-goes-to-the-one-query-path] QueryEntitiesC@1: recv == self && arg0 == ret(Parse, 1, 0)
-//@   lensures[every-parsed-query-takes-the-one-query-path] called(Parse, 1) && (ret(Parse, 1, 1) == nil ==> called(QueryEntitiesC, 1))
+//@   lensures[every-parsed-query-takes-the-one-query-path-the-call-always-happens] called(Parse, 1)
+//@   lensures[every-parsed-query-takes-the-one-query-path] (ret(Parse, 1, 1) == nil ==> called(QueryEntitiesC, 1))
